@@ -6,6 +6,7 @@ from .c04 import judge
 
 IMPORTS = 'From OFV Require Import Base.Cplx Sem.PauliSem Model.SymbolicOp Model.QubitOp Check.Schedules.\n'
 NEEDS = ['Check/Schedules']
+LEVEL = 'translation_validation'
 
 def centry(e):
     if isinstance(e, tuple):
